@@ -59,7 +59,9 @@ pub const ARGS: &[&str] = &["", "int", "java.lang.String", "int,long", "a.b", "a
 pub const TYPES: &[&str] = &["void", "int", "java.lang.String", "a.b[]", "o.A", "boolean", "é.T"];
 pub const FILES: &[&str] = &["Foo.kt", "Bar.java", "R8$$SyntheticClass", "SourceFile", "Ünï.kt", "x", "C:\\src\\Foo.kt", "a\\", "\\", "R8$$SyntheticClass", "{}", "a:b",
     // white space inside / around a quoted file name is part of the name
-    " Outer Impl.kt", "R8$$SyntheticClass ", " R8$$SyntheticClass", "\tx ", " ", "Main(1).java"];
+    " Outer Impl.kt", "R8$$SyntheticClass ", " R8$$SyntheticClass", "\tx ", " ", "Main(1).java",
+    // near misses of the synthetic-class marker: only the exact literal is special
+    "D8$$SyntheticClass", "R8$$Desugared.java", "R8$$", "Generated$$SyntheticClass", "r8$$syntheticclass", "R8$$SyntheticClass.java", "R8$SyntheticClass", "$$SyntheticClass"];
 
 /// a name whose LEB128 length prefix needs 3 bytes (> 16383 bytes)
 pub fn huge_name(rng: &mut Rng) -> String {
@@ -271,7 +273,12 @@ fn source_file_line(rng: &mut Rng, cfg: &Cfg) -> String {
     match rng.below(10) {
         0..=4 => format!("# {{\"id\":\"sourceFile\",\"fileName\":\"{}\"}}", f),
         5..=7 => format!("# sourceFile: {}", f),
-        8 => "# sourceFile".to_string(),
+        8 => match rng.below(3) {
+            0 => "# sourceFile".to_string(),
+            // near misses of the key: only `sourceFile` is the source-file header
+            1 => format!("# {}: {}", rng.pick(&["source_file", "SourceFile", "sourcefile", "source-file", "sourceFiles", "sourceFile2", "file", "source"]), f),
+            _ => format!("# {}", rng.pick(&["source_file", "SourceFile", "sourcefile"])),
+        },
         _ => format!("#   sourceFile  :  {}  ", f),
     }
 }
